@@ -214,6 +214,12 @@ func (l *List) M__getitem__(key Object) (Object, error) {
 
 func (l *List) M__setitem__(key, value Object) (Object, error) {
 	if slice, ok := key.(*Slice); ok {
+		// Read the new items first: value may be the list itself
+		// or an iterator which changes the list as it is read
+		newItems, err := SequenceTuple(value)
+		if err != nil {
+			return nil, err
+		}
 		start, stop, step, slicelength, err := slice.GetIndices(len(l.Items))
 		if err != nil {
 			return nil, err
@@ -222,11 +228,6 @@ func (l *List) M__setitem__(key, value Object) (Object, error) {
 			if stop < start {
 				stop = start
 			}
-			// Read the new items first: value may be the list itself
-			newItems, err := SequenceTuple(value)
-			if err != nil {
-				return nil, err
-			}
 			// Make a copy of the tail
 			tailSlice := l.Items[stop:]
 			tail := make([]Object, len(tailSlice))
@@ -234,10 +235,6 @@ func (l *List) M__setitem__(key, value Object) (Object, error) {
 			l.Items = append(l.Items[:start], newItems...)
 			l.Items = append(l.Items, tail...)
 		} else {
-			newItems, err := SequenceTuple(value)
-			if err != nil {
-				return nil, err
-			}
 			if len(newItems) != slicelength {
 				return nil, ExceptionNewf(ValueError, "attempt to assign sequence of size %d to extended slice of size %d", len(newItems), slicelength)
 			}
